@@ -779,6 +779,24 @@ func bigSRT(n int) []byte {
 }
 
 // genSubs: a small cue list with everything a writer of the given format needs
+// largePlainSubs: a long list of plain cues (written documents well beyond 64 KiB)
+func largePlainSubs(r *rng, n int) *astisub.Subtitles {
+	s := astisub.NewSubtitles()
+	var t int64
+	words := []string{"hello", "world", "subtitle number", "a b c", "42", "the quick brown fox"}
+	for i := 0; i < n; i++ {
+		t += r.rangeI(0, 3000) * 1000000
+		e := t + r.rangeI(1, 4000)*1000000
+		it := &astisub.Item{StartAt: timeDur(t), EndAt: timeDur(e)}
+		for l := 0; l < 1+r.intn(2); l++ {
+			it.Lines = append(it.Lines, astisub.Line{Items: []astisub.LineItem{{Text: words[r.intn(len(words))] + " " + fmt.Sprint(i)}}})
+		}
+		s.Items = append(s.Items, it)
+		t = e
+	}
+	return s
+}
+
 func genSubs(r *rng, format string) *astisub.Subtitles {
 	s := astisub.NewSubtitles()
 	n := 1 + r.intn(4)
